@@ -181,6 +181,7 @@ static void runPerseus(Rng & rng, const Inst & I, const PModel & m) {
 struct Obs {
     const Inst * I; const char * algo; unsigned budget; P::VList prev; bool havePrev = false; unsigned n = 0; std::string params;
     bool operator()(const AIToolbox::Verif::AnytimeSnapshot & s) {
+        std::printf("#in %s iteration %u\n", algo, s.iteration + 1);      // keeps the crash attribution next to the crash
         Line l; putHead(l, "snap", *I); l << algo << s.iteration << havePrev; putVList(l, prev, false);
         l << "|" << s.lb << s.ub; putVList(l, *s.lbVList, false); putMatrix(l, *s.ubQ); putUbV(l, *s.ubV); l.emit();
         prev = *s.lbVList; havePrev = true; ++n;
@@ -191,7 +192,7 @@ struct Obs {
 static void runSarsop(Rng & rng, const Inst & I, const PModel & m, const std::string & tier) {
     static const double tols[] = {0.1, 0.01, 1.0, 0.001}; static const double deltas[] = {0.1, 0.01, 0.5};
     double tol = tols[rng.below(4)], delta = deltas[rng.below(3)];
-    Obs ob{&I, "SARSOP", tier == "thorough" ? 120u : 30u};
+    Obs ob{&I, "SARSOP", tier == "thorough" ? 80u : 30u};
     AIToolbox::Verif::anytimeObserver = std::ref(ob);
     std::printf("#in SARSOP tol=%g delta=%g shape=%s\n", tol, delta, I.shape.c_str()); std::fflush(stdout);
     P::SARSOP sarsop(tol, delta);
@@ -207,7 +208,7 @@ static void runGapMin(Rng & rng, const Inst & I, const PModel & m, const std::st
     // precisionDigits drives the tolerance of the inner PBVI/FIB runs (threshold*(1-discount)/2): 2 digits at discount 15/16 already costs
     // minutes per iteration under the sanitizers, so quick uses 1 digit and thorough at most 2
     unsigned digits = (unsigned)rng.range(1, tier == "thorough" ? 2 : 1);
-    Obs ob{&I, "GapMin", tier == "thorough" ? 60u : 12u};
+    Obs ob{&I, "GapMin", tier == "thorough" ? 30u : 12u};
     AIToolbox::Verif::anytimeObserver = std::ref(ob);
     std::printf("#in GapMin tol=%g digits=%u shape=%s\n", tol, digits, I.shape.c_str()); std::fflush(stdout);
     P::GapMin gm(tol, digits);
@@ -246,7 +247,7 @@ static void runKernels(Rng & rng, const Inst & I, const PModel & m) {
 }
 
 namespace verif {
-long verif_ncases(const std::string & tier) { return (NFIXED + (tier == "thorough" ? 600 : 40)) * NSOLV; }
+long verif_ncases(const std::string & tier) { return (NFIXED + (tier == "thorough" ? 300 : 40)) * NSOLV; }
 
 void verif_case(Rng & rng, long idx, const std::string & tier) {
     const long pn = idx / NSOLV, solver = idx % NSOLV;
